@@ -25,7 +25,7 @@ RULE = ("scenario = one client call (send_message or a typed helper) + 0..12 tim
         "was consumed while the request was in flight")
 PROBES = ["delivery_exactly_at_deadline", "delivery_exactly_on_poll_edge", "match_after_deadline",
           "same_id_request_delivered", "batch_delivered", "prequeued_before_call"]
-TIERS = {"quick": {"runs": 6000, "wall": 40.0}, "thorough": {"runs": 400000, "wall": 540.0}}
+TIERS = {"quick": {"runs": 40000, "wall": 45.0}, "thorough": {"runs": 4000000, "wall": 560.0}}
 ASSUMPTIONS = [
     "inbound objects are built exactly as the transports build them (parse_message for stdio, "
     "JSONRPCMessage.model_validate for HTTP/SSE); unbuildable payloads are not delivered",
